@@ -304,6 +304,37 @@ void judge(Ctx& ctx, const Case& c, bool from_replay) {
   ctx.count("calls_" + opn + "_" + cl);
 
   bool nontrivial = false;
+  if (c.geti("long", 0) != 0 && pr.ok) {
+    // long paths (thousands of points): the full sampler is quadratic in the number of parallelograms, so only the
+    // "inside" half of the claim is checked, at one sample per path edge: the centroid of the parallelogram of that path
+    // edge and one pattern edge lies in the union by definition; it must be covered unless it is within the margin of
+    // some parallelogram edge. One lost or misplaced strip anywhere along the path leaves such a point uncovered.
+    std::vector<Quad> qs; std::vector<QEdge> es;
+    build_quads(pat, path, sum, closed, qs); build_edges(qs, es);
+    const size_t np = pat.size(), nedges = closed ? path.size() : path.size() - 1;
+    long long judged = 0, skipped = 0;
+    ctx.count("long_path_calls"); ctx.cmax("max_long_path_points", (long long)path.size()); ctx.count("long_path_parallelograms", (long long)qs.size());
+    if (qs.size() == np * nedges) {
+      for (size_t e = 0; e < nedges; ++e) {
+        // two of this path edge's parallelograms
+        for (int t = 0; t < 2; ++t) {
+          const Quad& Q = qs[e * np + (size_t)srng.irange(0, (int)np - 1)];   // build_quads: path edge major
+          if (Q.flat) continue;
+          Point64 q = rnd_pt(0.5L * ((ld)Q.v[0].x + (ld)Q.v[2].x), 0.5L * ((ld)Q.v[0].y + (ld)Q.v[2].y));
+          if (in_band(es, q)) { ++skipped; continue; }
+          bool on = false; int w = winding(res, q, &on); ++judged;
+          if (on || w == 0) {
+            ctx.violation("C19.region", { "not_covered", "long_path", opn, cl, mag_tag(pat, path) }, c,
+              "Minkowski" + opn + "(" + cl + ") of a " + std::to_string(path.size()) + "-point path: the centre (" + std::to_string(q.x) + "," + std::to_string(q.y) + ") of one of the parallelograms is not covered by the result");
+            return;
+          }
+        }
+      }
+    }
+    ctx.count("long_path_centres_judged", judged); ctx.count("long_path_centres_skipped_by_margin", skipped);
+    if (!from_replay) ctx.note_case(c, judged >= 100);
+    return;
+  }
   if (pr.empty_in) {
     ctx.count("empty_input_calls");
     if (!res.empty()) {
@@ -486,9 +517,21 @@ void vf_case(Ctx& ctx, uint64_t i) {
       if (nb.x >= -M && nb.x <= M && nb.y >= -M && nb.y <= M) { path[ae + 1] = nb; ctx.count("cases_with_a_nearly_parallel_long_edge_pair"); }
     }
   }
+  // long paths (1 case in 2500): 1500-9000 points on a convex arc with steps much longer than the pattern, so that every
+  // strip matters; exercises any size-dependent code path of the implementation (sectioning, batching, reserve sizes)
+  if (i % 2500 == 1777 && magexp >= 30) {
+    const int K = (int)std::exp(r.real(std::log(1500.0), std::log(9000.0)));
+    const double step = r.real(60, 400), curv = r.real(2e-5, 2e-4);
+    pat = gen_pattern(r, r.irange(0, 1), r.irange(3, 8), 0, 0, r.real(10, 40));
+    path.clear(); double x = -0.5 * K * step, y = 0;
+    for (int k = 0; k < K; ++k) { x += step * r.real(0.7, 1.3); y = curv * x * x; path.push_back(Point64((int64_t)x + r.range(-3, 3), (int64_t)y + r.range(-3, 3))); }
+    c.seti("long", 1); c.seti("closed", r.chance(0.3));
+    ctx.count("cases_with_a_long_path");
+  }
   clamp_path(pat, M); clamp_path(path, M);
   // special inputs: empties (the property's last sentence) and inputs outside the quantifier (executed, counted, not judged)
   double u = r.unit();
+  if (c.geti("long", 0)) u = 1.0;
   if (u < 0.015) pat.clear();
   else if (u < 0.03) path.clear();
   else if (u < 0.035) { pat.clear(); path.clear(); }
